@@ -22,16 +22,26 @@ type sframe struct {
 	vbPos    [][2]int     // (offset, length) of variable byte integers in the body
 	boolPos  []int        // offsets of boolean property values
 	propIDs  []int        // offsets of property identifiers
+	interior []int        // cut positions strictly inside a field that are always tried (C09a)
 }
 
 func (f *sframe) mark() { f.bounds[len(f.body)] = true }
 func (f *sframe) u8(v byte) { f.body = append(f.body, v); f.mark() }
-func (f *sframe) u16(v uint64) { f.body = append(f.body, byte(v>>8), byte(v)); f.mark() }
+func (f *sframe) u16(v uint64) {
+	f.interior = append(f.interior, len(f.body)+1)
+	f.body = append(f.body, byte(v>>8), byte(v))
+	f.mark()
+}
 func (f *sframe) u32(v uint64) {
+	f.interior = append(f.interior, len(f.body)+1, len(f.body)+3)
 	f.body = append(f.body, byte(v>>24), byte(v>>16), byte(v>>8), byte(v))
 	f.mark()
 }
 func (f *sframe) str(v []byte) {
+	f.interior = append(f.interior, len(f.body)+1)
+	if len(v) > 0 {
+		f.interior = append(f.interior, len(f.body)+2, len(f.body)+2+len(v)-1)
+	}
 	f.body = append(f.body, byte(len(v)>>8), byte(len(v)))
 	f.body = append(f.body, v...)
 	f.mark()
@@ -52,6 +62,9 @@ func vbEncode(n uint64) []byte {
 func (f *sframe) vb(n uint64) {
 	e := vbEncode(n)
 	f.vbPos = append(f.vbPos, [2]int{len(f.body), len(e)})
+	for k := 1; k < len(e); k++ {
+		f.interior = append(f.interior, len(f.body)+k)
+	}
 	f.body = append(f.body, e...)
 	f.mark()
 }
@@ -258,6 +271,31 @@ func (g *gen) specProps(f *sframe, tk string, upName string, subIDs int, subName
 		pairs = append(pairs, [2][]byte{k, v})
 		ps = append(ps, sprop{id: 0x26, enc: append(encStr(k), encStr(v)...), pairMid: 2 + len(k)})
 	}
+	// now and then pad the section with a user property so that the property length is a multiple
+	// of 128 (its encoding then starts with value-free continuation bytes: 80 01, 80 02, 80 80 01)
+	if g.chance(0.12) {
+		total := 0
+		for _, p := range ps {
+			total += 1 + len(p.enc)
+		}
+		target := []int{128, 256, 384, 16384}[g.r.Intn(4)]
+		if !g.big && target == 16384 {
+			target = 128
+		}
+		for target < total+6 {
+			target += 128
+		}
+		pad := target - total - 1 - 4 // id + two length prefixes
+		if pad >= 1 && pad < 60000 {
+			k := g.nonEmpty()
+			if len(k) > pad {
+				k = k[:pad]
+			}
+			v := g.bytesN(pad - len(k))
+			pairs = append(pairs, [2][]byte{k, v})
+			ps = append(ps, sprop{id: 0x26, enc: append(encStr(k), encStr(v)...), pairMid: 2 + len(k)})
+		}
+	}
 	if len(pairs) > 0 {
 		f.view[upName] = ups(pairs)
 	}
@@ -328,7 +366,16 @@ func (f *sframe) putProps(ps []sprop) {
 	f.vb(uint64(total))
 	for _, p := range ps {
 		f.propIDs = append(f.propIDs, len(f.body))
+		start := len(f.body)
 		f.body = append(f.body, p.id)
+		// between the identifier and its value, inside the value, and (pairs) between key and value
+		f.interior = append(f.interior, start+1)
+		if len(p.enc) > 1 {
+			f.interior = append(f.interior, start+2, start+len(p.enc))
+		}
+		if p.pairMid > 0 {
+			f.interior = append(f.interior, start+1+p.pairMid)
+		}
 		if p.boolVal {
 			f.boolPos = append(f.boolPos, len(f.body))
 		}
@@ -675,28 +722,43 @@ func (g *gen) genReject(n int) {
 		}
 		g.emit("RESET")
 		g.emit("NOTE case=rejectbase")
-		// (a) cut strictly inside a field
+		// (a) cut strictly inside a field: the boundary-adjacent interior positions of every field
+		// always, the other interior positions sampled
+		always := map[int]bool{}
+		for _, k := range f.interior {
+			always[k] = true
+		}
 		for k := 1; k < len(f.body); k++ {
 			if f.bounds[k] || (f.payload >= 0 && k >= f.payload) {
 				continue
 			}
-			if len(f.body) > 80 && !g.chance(80.0/float64(len(f.body))) {
+			if !always[k] && len(f.body) > 80 && !g.chance(80.0/float64(len(f.body))) {
 				continue
 			}
 			g.emit("NOTE case=reject why=cut k=%d", k)
 			g.emit("RD x %s sched=- eofwd=0 fail=eof calls=1", hx(reframe(f.first, f.body[:k])))
 		}
 		// (b) variable byte integer with a fifth byte
+		long5 := func() []byte {
+			// four continuation bytes and a fifth byte; half of the time with empty 7-bit groups
+			if g.chance(0.5) {
+				return []byte{0x80, 0x80, 0x80, 0x80, []byte{0x00, 0x01, 0x80, 0x7f}[g.r.Intn(4)]}
+			}
+			return []byte{0x80 | byte(g.r.Intn(128)), 0x80 | byte(g.r.Intn(128)), 0x80 | byte(g.r.Intn(128)), 0x80 | byte(g.r.Intn(128)), byte(g.r.Intn(256))}
+		}
 		for _, vp := range f.vbPos {
 			body := append([]byte(nil), f.body[:vp[0]]...)
-			body = append(body, 0x80|byte(g.r.Intn(128)), 0x80|byte(g.r.Intn(128)), 0x80|byte(g.r.Intn(128)), 0x80|byte(g.r.Intn(128)), byte(g.r.Intn(256)))
+			body = append(body, long5()...)
 			body = append(body, f.body[vp[0]+vp[1]:]...)
 			g.emit("NOTE case=reject why=vb5 at=%d", vp[0])
 			g.emit("RD x %s sched=- eofwd=0 fail=eof calls=1", hx(reframe(f.first, body)))
 		}
 		{
-			// the remaining length itself
-			fr := []byte{f.first, 0x80 | byte(g.r.Intn(128)), 0x80 | byte(g.r.Intn(128)), 0x80 | byte(g.r.Intn(128)), 0x80 | byte(g.r.Intn(128)), byte(g.r.Intn(256))}
+			// the remaining length itself (followed by enough bytes for any reading of it)
+			fr := append([]byte{f.first}, long5()...)
+			if g.chance(0.3) {
+				fr = append(fr, 0x80, 0x80, 0x00)
+			}
 			fr = append(fr, f.body...)
 			g.emit("NOTE case=reject why=vb5 at=remlen")
 			g.emit("RD x %s sched=- eofwd=0 fail=eof calls=1", hx(fr))
@@ -754,11 +816,14 @@ func (g *gen) genSeq(n int) {
 		var lens []string
 		for i := 0; i < k; i++ {
 			var fr []byte
-			switch g.r.Intn(6) {
+			switch g.r.Intn(8) {
 			case 0:
 				fr = g.badContentFrame()
 			case 1:
 				fr = []byte{[]byte{0xc0, 0xd0, 0xe0, 0xf0, 0x00, 0x30}[g.r.Intn(6)], 0}
+			case 2, 3:
+				// any type nibble over an arbitrary short body (a frame is a frame whatever its content)
+				fr = reframe(byte(g.r.Intn(16))<<4|byte(g.r.Intn(16)), g.bytesN(g.r.Intn(12)))
 			default:
 				f := g.specFrame(g.anyKind())
 				fr = f.frame()
@@ -1090,6 +1155,15 @@ func (g *gen) genVB(n int) {
 		}
 	}
 	g.emit("VB enc 0")
+	for k := 1; k <= 9; k++ {
+		for _, last := range []byte{0x00, 0x01, 0x7f, 0x80} {
+			b := append(bytesRepeat(0x80, k), last)
+			g.emit("VB mem %s", hx(b))
+			g.emit("VB stream %s", hx(b))
+			g.emit("VB mem %s", hx(b[:k]))
+			g.emit("VB stream %s", hx(b[:k]))
+		}
+	}
 	for i := 0; i < n; i++ {
 		x := uint64(g.r.Int63n(268435456))
 		if g.chance(0.3) {
@@ -1112,6 +1186,14 @@ func (g *gen) genVB(n int) {
 		g.emit("VB mem %s", hx(b))
 		g.emit("VB stream %s", hx(b))
 	}
+}
+
+func bytesRepeat(b byte, n int) []byte {
+	out := make([]byte, n)
+	for i := range out {
+		out[i] = b
+	}
+	return out
 }
 
 func (g *gen) genWF(n int) {
